@@ -3,6 +3,6 @@
 # makes vlib build in its scratch and keep the evidence there).  Any line not ending in "exit=0" is a false alarm or a flaky check.
 # usage: seedsweep.sh <tier> <parallel> <seed>...
 tier=${1:-quick}; par=${2:-3}; shift 2
-cd /verif
+cd ${VROOT:-/verif}      # (VROOT=<copy of /verif>: sweep a snapshot while /verif is being edited)
 for seed in "$@"; do for p in C01 C02 C03 C04 C05 C06 C07 C08 C09 C10 C11 C12 C13 C14 C15 C16 C17 C18 C19 C20; do echo "$seed $p"; done; done |
   xargs -P $par -L 1 bash -c 'out=$(VERIF_REPO=/repo VERIF_SEED=$0 timeout 7000 python3 bin/check $1 '$tier' 2>&1); rc=$?; echo "seed=$0 $1 '$tier' exit=$rc $(echo "$out" | grep -m1 -A1 "^VIOLATION\|^INCONCLUSIVE" | tr "\n" " " | cut -c1-300)"'
